@@ -66,6 +66,9 @@ def _run_items(prop, items, verbose=True):
             new_fb = [f['function'] for f in ck.fallbacks]
             if expect_fail and not failed and new_fb:
                 ok = None     # the edit pushed the function outside the supported subset: proof lost, bounded stand-in is the backstop
+            detached = set(f['function'] for f in ck.functions if f.get('hints_not_attached'))
+            if not expect_fail and failed and not ck.problems and all(groups[n][0].func in detached for n in failed):
+                ok = None     # a harmless edit detached the proof's stepping stones: the check reports a fall-back to the bounded stand-in, not a violation
             results.append({'id': m['id'], 'expect': m.get('expect', 'fail'), 'failed_obligations': failed[:6], 'problems': ck.problems,
                             'fallbacks': [f['reason'] for f in ck.fallbacks], 'status': 'ok' if ok else ('fallback-only' if ok is None else 'WRONG')})
         finally:
